@@ -1689,6 +1689,18 @@ func loopEnum(args []string, w *bufio.Writer) {
 			}
 		}
 	}
+	// 5b'. ... and the handler is the object's own other direction: a read and a write parked on one descriptor become ready together
+	// (one epoll event), the read callback — dispatched first — cancels or closes the object
+	for _, kind := range []string{"tcp", "adapter"} {
+		for _, act := range []string{"close", "cancel"} {
+			emit("obj 1 "+kind, "prog 13 "+act+" 1", "setdisp 32", "write 1 8 op=11", "setdisp 0", "read 1 4 op=13", "peer 1 write 4", "poll", "pending", "poll", "pending")
+			emit("obj 1 "+kind, "prog 13 "+act+" 1", "read 1 4 op=13", "setdisp 32", "write 1 8 op=11", "setdisp 0", "peer 1 write 4", "poll", "pending", "poll", "pending")
+			emit("obj 1 "+kind, "prog 11 "+act+" 1", "setdisp 32", "write 1 8 op=11", "setdisp 0", "read 1 4 op=13", "peer 1 write 4", "poll", "pending", "poll", "pending")
+		}
+		// a ReadAll that has made progress and is parked again, then a write starts on the same object before the rest arrives
+		emit("obj 1 "+kind, "readall 1 8 op=11", "peer 1 write 3", "poll", "pending", "write 1 5 op=12", "poll", "peer 1 write 5", "poll", "peer 1 drain", "pending")
+		emit("obj 1 "+kind, "readall 1 8 op=11", "peer 1 write 3", "poll", "setdisp 32", "write 1 5 op=12", "setdisp 0", "peer 1 write 5", "poll", "poll", "peer 1 drain", "pending")
+	}
 	// 5c. a listener reported readable whose queue is empty by the time its handler runs (a handler earlier in the batch took the
 	// connection with the blocking Accept): the accept completes once, whatever it reports, and a later connection is not its
 	emit("obj 1 listener", "obj 2 tcp", "prog 12 peer 1 steal", "accept 1 op=11", "read 2 4 op=12", "peer 2 write 4", "peer 1 connect", "poll", "pending",
